@@ -144,6 +144,8 @@ def check_lsq_case(case, rng, out):
     if not impl:
         return
     kind, n, m = case["kind"], case["n"], case["m"]
+    if case.get("scipy_nnls_defect"):
+        return          # already reported under its own key (third-party solver returned a non-minimiser)
     W, b = case["W"], case["b"]
     alpha = case.get("alpha", 0.0) if kind != "svd" else 0.0
     L = case.get("L") if kind != "svd" else None
@@ -189,12 +191,21 @@ def check_lsq_case(case, rng, out):
         comps.append(("coordinate step", x - e))
     comps.append(("scaled", x * 0.999))
     comps.append(("scaled", x * 1.001))
+    # a competitor counts as lower only beyond the eps-optimality that the certificate theorems guarantee for a backward
+    # stable solver (C11_kkt_certificate_sufficient / C11_normal_equations_certificate_sufficient with the checker's eps):
+    # for systems whose conditioning exceeds double precision (e.g. alpha 2^51 times larger than W) that is all the
+    # property can mean, and the search must not demand more than the theorem states
+    rel = 2.0 ** -17 if case.get("single") else 2.0 ** -30
+    Cabs = np.vstack([np.abs(W), abs(alpha) * np.abs(Lm)])
+    rowmag = Cabs @ np.abs(x) + np.concatenate([np.abs(b), np.zeros(Lm.shape[0])])
+    e1 = rel * float(Cabs.sum(axis=0).max(initial=0.0) * rowmag.max(initial=0.0))
     for name, y in comps:
         y = np.asarray(y, dtype=float)
         if kind == "nnls":
             y = np.maximum(y, 0.0)
         Fy = objective(W, b, alpha, Lm, y)
-        if Fy < F - tol:
+        slack = 2 * e1 * (float(np.abs(y).sum()) if kind == "nnls" else float(np.abs(y - x).sum())) + (2 * n * rel * sc if kind == "nnls" else 0.0)
+        if Fy < F - max(tol, slack):
             out["f"].append(dict(base, claim="returned point is not a minimiser of |Wx-b|^2 + alpha^2|Lx|^2%s: a competitor is lower"
                                  % (" over x >= 0" if kind == "nnls" else ""), competitor=name, objective_returned=F,
                                  objective_competitor=Fy, x=x.tolist(), y=y.tolist()))
@@ -272,3 +283,31 @@ def search(inv, nnls_mod, lstsq_mod, svd_mod, sart_cases, lsq_cases, rng, quick,
     for case in lsq_cases:
         check_lsq_case(case, rng, out)
     return {"n_checked": out["n"], "failures": out["f"]}
+
+
+def nnls_scipy_attributable(case, x, rn):
+    """True when the NNLS output is not a minimiser / has an inconsistent norm AND scipy.optimize.nnls called directly on the
+    correctly built normalised system [W; alpha L] / vmax, [b; 0] / vmax (float64, built here from the case's values)
+    returns that same output: the wrapper did its part, the third-party solver returned a non-minimiser."""
+    n = case["n"]
+    W, b, alpha = case["W"], case["b"], case["alpha"]
+    Lm = np.identity(n) if case.get("L") is None else case["L"]
+    C = np.vstack([W, alpha * Lm])
+    d = np.concatenate([b, np.zeros(n)])
+    vmax = d.max()
+    if not vmax > 0:
+        return False, None
+    with warnings.catch_warnings():
+        warnings.simplefilter("ignore")
+        try:
+            xs, rs = scipy.optimize.nnls(C / vmax, d / vmax, **(case.get("solver_kwargs") or {}))
+            xr = scipy.optimize.nnls(C, d)[0]
+        except Exception:
+            return False, None
+    x = np.asarray(x, dtype=float)
+    same = xs.shape == x.shape and np.allclose(xs, x, rtol=1e-9, atol=1e-300) and abs(rs * vmax - rn) <= 1e-9 * abs(rn)
+    F, Fr = objective(W, b, alpha, Lm, x), objective(W, b, alpha, Lm, np.maximum(xr, 0.0))
+    sc = obj_scale(W, b, alpha, Lm, x)
+    bad = (Fr < F - 1e-9 * sc) or abs(rn * rn - F) > 1e-9 * sc
+    return bool(same and bad), {"objective_returned": F, "objective_of_nnls_on_unnormalised_system": Fr, "rnorm": rn,
+                                "x": x.tolist(), "x_unnormalised": xr.tolist(), "vmax": float(vmax)}
